@@ -29,6 +29,11 @@ def cases(chk):
         L.append(cc.line(cls, "file", rng.choice(["json", "csv"]), k=K()))
     for cls in cc.STDIN_CLASSES:
         L.append(cc.line(cls, "stdin", rng.choice(["json", "csv"]), k=K()))
+    # every way the engine can reject a text (k mod 6): syntax errors and grammatical projects refused while they are built
+    # through MessageHandler.error() -> sys.exit() (witness of F51), on both channels
+    for k in range(6):
+        for channel in ("file", "stdin"):
+            L.append(cc.line("syntax", channel, "json" if k % 2 else "csv", k=k))
     # B. report names that point outside / below the output directory
     for ur in ("ej", "ec", "eb", "aj", "ab", "sj", "sb", "pj,ej", "sb,ab", "pb,pb,eb"):
         for channel in ("file", "stdin"):
